@@ -278,12 +278,40 @@ func checkErrAtomic(r *Run, ms *mutSummary, fn *ssa.Function, rule string) {
 // checkErrAtomicGroup evaluates a group with a greatest fixpoint over "callee is atomic".
 func checkErrAtomicGroup(r *Run, ms *mutSummary, fns []*ssa.Function) {
 	atomicCallee = map[*ssa.Function]bool{}
+	// the fixpoint also covers the unexported helpers the group's functions delegate to (a shared
+	// "read all / modify / write all" step): a helper that can fail and writes through its
+	// parameters is atomic or not by the same criterion; only the group's own functions are reported
+	all := append([]*ssa.Function{}, fns...)
+	inAll := map[*ssa.Function]bool{}
 	for _, f := range fns {
+		inAll[f] = true
+	}
+	for i := 0; i < len(all) && len(all) < 200; i++ {
+		allInstrs(all[i], func(in ssa.Instruction) {
+			c, ok := in.(*ssa.Call)
+			if !ok {
+				return
+			}
+			cal := staticCallee(c)
+			if cal == nil || inAll[cal] || !r.P.inModule(cal) || len(cal.Blocks) == 0 || cal.Parent() != nil {
+				return
+			}
+			if cal.Object() != nil && cal.Object().Exported() {
+				return
+			}
+			if errorResultIndex(cal.Signature) < 0 || len(ms.Params(cal)) == 0 {
+				return
+			}
+			inAll[cal] = true
+			all = append(all, cal)
+		})
+	}
+	for _, f := range all {
 		atomicCallee[f] = true
 	}
 	for round := 0; round < 6; round++ {
 		changed := false
-		for _, f := range fns {
+		for _, f := range all {
 			if !atomicCallee[f] {
 				continue
 			}
@@ -1037,10 +1065,15 @@ type nonNilFlow struct {
 	base  ssa.Value
 	kills func(ssa.CallInstruction) bool
 	in    map[*ssa.BasicBlock]bool
+	depth int
 }
 
 func newNonNilFlow(fn *ssa.Function, fv *types.Var, base ssa.Value, kills func(ssa.CallInstruction) bool) *nonNilFlow {
-	nf := &nonNilFlow{fn: fn, fv: fv, base: base, kills: kills, in: map[*ssa.BasicBlock]bool{}}
+	return newNonNilFlowDepth(fn, fv, base, kills, 0)
+}
+
+func newNonNilFlowDepth(fn *ssa.Function, fv *types.Var, base ssa.Value, kills func(ssa.CallInstruction) bool, depth int) *nonNilFlow {
+	nf := &nonNilFlow{fn: fn, fv: fv, base: base, kills: kills, in: map[*ssa.BasicBlock]bool{}, depth: depth}
 	// optimistic initialisation (true everywhere but the entry), iterate down to the greatest fixpoint
 	for _, b := range fn.Blocks {
 		nf.in[b] = b.Index != 0
@@ -1120,6 +1153,9 @@ func (nf *nonNilFlow) edgeFact(from, to *ssa.BasicBlock) bool {
 		return s
 	}
 	bin, ok := iff.Cond.(*ssa.BinOp)
+	if ok && !s && nf.countWitnessEdge(bin, from, to) {
+		return true
+	}
 	if !ok || (bin.Op != token.NEQ && bin.Op != token.EQL) {
 		return s
 	}
@@ -1152,6 +1188,114 @@ func (nf *nonNilFlow) edgeFact(from, to *ssa.BasicBlock) bool {
 		return true
 	}
 	return s
+}
+
+// countWitnessEdge: the branch establishes n != 0 for a value n = count(base) computed by a module
+// function that yields 0 whenever the field is nil (GetGridColumnCount: `if t.Grid == nil { return 0 }
+// return len(t.Grid.Cols)`).  `0 <= i && i < n` on the taken edge implies n > 0, hence field != nil.
+func (nf *nonNilFlow) countWitnessEdge(bin *ssa.BinOp, from, to *ssa.BasicBlock) bool {
+	taken := to == from.Succs[0]
+	isWitness := func(v ssa.Value) bool {
+		c, ok := v.(*ssa.Call)
+		if !ok {
+			return false
+		}
+		cal := staticCallee(c)
+		if cal == nil || len(cal.Blocks) == 0 || cal == nf.fn || nf.depth > 1 {
+			return false
+		}
+		if b, ok := c.Type().Underlying().(*types.Basic); !ok || b.Info()&types.IsInteger == 0 {
+			return false
+		}
+		for k, a := range c.Call.Args {
+			if !sameBase(a, nf.base) || k >= len(cal.Params) {
+				continue
+			}
+			// nothing in this function may change the field (the witness was computed earlier)
+			clean := true
+			for _, b := range nf.fn.Blocks {
+				for _, in := range b.Instrs {
+					if in != ssa.Instruction(c) && !nf.transfer(in, true) {
+						clean = false
+					}
+				}
+			}
+			if !clean {
+				continue
+			}
+			sub := newNonNilFlowDepth(cal, nf.fv, cal.Params[k], nil, nf.depth+1)
+			ok := true
+			for _, ret := range returnsOf(cal) {
+				if len(ret.Results) != 1 {
+					ok = false
+					break
+				}
+				if z, isC := constInt(retResult(ret, 0)); isC && z == 0 {
+					continue
+				}
+				if !sub.nonNilAt(ret) {
+					ok = false
+				}
+			}
+			if ok {
+				return true
+			}
+		}
+		return false
+	}
+	nonNeg := func(v ssa.Value) bool {
+		if z, ok := constInt(v); ok {
+			return z >= 0
+		}
+		// a dominating test `v < 0` whose false edge (or `v >= 0` whose true edge) dominates `from`
+		for _, b := range nf.fn.Blocks {
+			if len(b.Instrs) == 0 {
+				continue
+			}
+			iff, ok := b.Instrs[len(b.Instrs)-1].(*ssa.If)
+			if !ok {
+				continue
+			}
+			c, ok := iff.Cond.(*ssa.BinOp)
+			if !ok || c.X != v {
+				continue
+			}
+			z, isC := constInt(c.Y)
+			if !isC || z != 0 {
+				continue
+			}
+			var okSucc *ssa.BasicBlock
+			switch c.Op {
+			case token.LSS:
+				okSucc = b.Succs[1]
+			case token.GEQ:
+				okSucc = b.Succs[0]
+			}
+			if okSucc != nil && b.Succs[0] != b.Succs[1] && len(okSucc.Preds) == 1 && okSucc.Dominates(from) {
+				return true
+			}
+		}
+		return false
+	}
+	switch bin.Op {
+	case token.LSS: // a < n
+		return taken && isWitness(bin.Y) && nonNeg(bin.X)
+	case token.GEQ: // a >= n  (false edge: a < n)
+		return !taken && isWitness(bin.Y) && nonNeg(bin.X)
+	case token.GTR: // n > a
+		return taken && isWitness(bin.X) && nonNeg(bin.Y)
+	case token.LEQ: // n <= a  (false edge: n > a)
+		return !taken && isWitness(bin.X) && nonNeg(bin.Y)
+	case token.NEQ: // n != 0
+		if z, ok := constInt(bin.Y); ok && z == 0 {
+			return taken && isWitness(bin.X)
+		}
+	case token.EQL: // n == 0 (false edge)
+		if z, ok := constInt(bin.Y); ok && z == 0 {
+			return !taken && isWitness(bin.X)
+		}
+	}
+	return false
 }
 
 func (nf *nonNilFlow) nonNilAt(at ssa.Instruction) bool {
